@@ -69,6 +69,8 @@ class Table:
         return "".join(out)
 
 
+LINE_BASE, LINE_RESET = 0, False        # how the scanner numbers lines (regenerated constants, set by the checks)
+
 GENERATED = ["LibErrors.lean", "ResolveGen.lean"]
 
 
@@ -86,12 +88,23 @@ def seed_generated():
             shutil.copyfile(os.path.join(src, f), os.path.join(L.GEN_DIR, f))
 
 
+GUARD_SHAPES = {
+    "TYPE_IS_ENTITY": ["entity_as_type", "undef_typedecl", "type_self_cycle"],
+    "SELECT_LOOP": ["select_cycle", "undef_select_item"],
+    "SUBSUPER_LOOP": ["sub_cycle", "undef_super", "undef_sub", "missing_super"],
+    "UNIQUE_QUAL_REDECL": ["unique_needless_qualifier", "unique_unknown_attr", "unique_unknown_qualified_attr", "unique_unknown_supertype"],
+}
+
+
 class Case:
     """one input file + what was injected"""
 
     def __init__(self, name, data, proto, cls, expect, verdict, warn=False, note="", attrless=False):
         self.name, self.data, self.proto, self.cls = name, data, proto, cls
         self.expect, self.verdict, self.warn, self.note = expect, verdict, warn, note
+        self.extra = {}            # relative path -> bytes: schema files found through cwd / EXPRESS_PATH
+        self.express_path = None   # value of EXPRESS_PATH for the run (None: unset, the current directory is searched)
+        self.expect_file = None    # the file the injected fault is in (None: the main file)
 
     def path(self):
         return self.name + ".exp"
@@ -124,10 +137,17 @@ def _resolve_expect(fault_expect, schema):
     return out
 
 
-def make_case(name, schema, cls, expect, verdict, warn=False, note="", data=None):
-    text, proto = G.render(schema)
+def make_case(name, schema, cls, expect, verdict, warn=False, note="", data=None, where=None, express_path=None):
+    text, proto = G.render(schema, LINE_BASE, LINE_RESET)
     raw = data if data is not None else text.encode("latin-1")
-    return Case(name, raw, G.protocol(name + ".exp", raw, proto), cls, _resolve_expect(expect, schema), verdict, warn, note)
+    c = Case(name, raw, G.protocol(name + ".exp", raw, proto), cls, _resolve_expect(expect, schema), verdict, warn, note)
+    if isinstance(schema, G.File):
+        c.extra = {k: v.encode("latin-1") for k, v in getattr(schema, "extra_texts", {}).items()}
+        c.express_path = express_path
+        if where is not None:
+            sch = schema.find_schema(where)
+            c.expect_file = sch.file if sch is not None else None
+    return c
 
 
 def gen_cases(rng, n_base, size, mutators=None, lexical=True, tag="g"):
@@ -158,7 +178,7 @@ def gen_cases(rng, n_base, size, mutators=None, lexical=True, tag="g"):
 def gen_file_cases(rng, n_base, size=3, tag="m", mutators=None):
     """valid multi-schema files (chained USE/REFERENCE, renames) and their single-fault mutants"""
     cases = []
-    names = mutators if mutators is not None else (sorted(G.FILE_MUTATORS) + ["undef_attr_type", "dup_decl", "undef_super", "missing_super",
+    names = mutators if mutators is not None else (sorted(G.FILE_MUTATORS) + ["unique_unknown_qualified_attr", "undef_attr_type", "dup_decl", "undef_super", "missing_super",
                                                                               "sub_cycle", "dup_redecl_attr", "syntax"])
     for i in range(n_base):
         base = G.gen_file(rng, size=size)
@@ -239,6 +259,38 @@ def gen_graph_case(rng, name, kind, n=None, outside=False):
     return c
 
 
+def gen_multifile_cases(rng, n_base, tag="x"):
+    """runs over several files: the checked file plus 1..2 schema files it USEs/REFERENCEs, found through the current
+    directory or through EXPRESS_PATH; valid, one fault in the main file, one fault in a referenced file, one in each"""
+    cases = []
+    main_m = ["undef_attr_type", "undef_super", "missing_super", "undef_item", "dup_attr", "unique_unknown_attr", "entity_as_type"]
+    ext_m = ["undef_attr_type", "undef_super", "dup_attr", "overload_attr", "unique_unknown_qualified_attr", "type_self_cycle"]
+    tries = 0
+    while len([c for c in cases if c.cls == "valid"]) < n_base and tries < 20 * n_base:
+        tries += 1
+        base = G.gen_file(rng, size=3)
+        ep, ok = G.externalise(base, rng)
+        if not ok:
+            continue
+        i = len([c for c in cases if c.cls == "valid"])
+        files = ",".join(s.file or "<main>" for s in base.schemas)
+        c = make_case(f"{tag}{i}_valid", base, "valid", [], "accept", note=f"files {files}; EXPRESS_PATH={ep}", express_path=ep)
+        c.multi = True
+        cases.append(c)
+        mains = [s.name for s in base.schemas if not s.file]
+        exts = [s.name for s in base.schemas if s.file]
+        for mn, pool in [(m, mains) for m in main_m] + [(m, exts) for m in ext_m]:
+            wh = rng.choice(pool)
+            f = G.mutate_file(base, mn, rng, where=None if mn in G.FILE_MUTATORS else wh)
+            if f is None or (mn in G.FILE_MUTATORS and f.schema.find_schema(f.where).file and pool is mains):
+                continue
+            c = make_case(f"{tag}{i}_{mn}_{'main' if pool is mains else 'ext'}", f.schema, f.cls, f.expect, f.verdict, f.warn,
+                          f.note + f" [fault in schema {f.where}; files {files}; EXPRESS_PATH={ep}]", where=f.where, express_path=ep)
+            c.multi = True
+            cases.append(c)
+    return cases
+
+
 def gen_chain_case(rng, name, length=None):
     """a VALID chained import: the last schema declares x, every other one imports it from its successor (partial USE, or
     REFERENCE for the first one, optionally renamed) and the first one uses it; schema names are a random sample and the text
@@ -297,16 +349,25 @@ def run_tool(b, tool, case, switches, workroot, timeout=20):
     path = os.path.join(d, case.path())
     with open(path, "wb") as fh:
         fh.write(case.data)
+    for rel, data in getattr(case, "extra", {}).items():
+        os.makedirs(os.path.dirname(os.path.join(d, rel)) or d, exist_ok=True)
+        with open(os.path.join(d, rel), "wb") as fh:
+            fh.write(data)
+    env = b.env()
+    env.pop("EXPRESS_PATH", None)
+    if getattr(case, "express_path", None):
+        env["EXPRESS_PATH"] = case.express_path
     args = [b.tool(tool)]
     for o, nm in switches:
         args += ["-" + o, nm]
     args.append(case.path())
     try:
-        r = subprocess.run(args, cwd=d, env=b.env(), capture_output=True, timeout=timeout)
+        r = subprocess.run(args, cwd=d, env=env, capture_output=True, timeout=timeout)
         rc, err, out = r.returncode, r.stderr, r.stdout
     except subprocess.TimeoutExpired as ex:
         rc, err, out = "timeout", ex.stderr or b"", ex.stdout or b""
-    files = sorted(f for f in os.listdir(d) if f != case.path())
+    given = {case.path()} | {rel.split("/")[0] for rel in getattr(case, "extra", {})}
+    files = sorted(f for f in os.listdir(d) if f not in given)
     import shutil
     shutil.rmtree(d, ignore_errors=True)
     return {"rc": rc, "err": err, "out": out, "files": files, "cmd": " ".join(args[1:])}
@@ -376,13 +437,17 @@ def sw_arg(switches):
     return ",".join(f"{o}:{n}" for o, n in switches) or "-"
 
 
+# warnings the declaration-level model does not produce (expression typing): never compared
+UNMODELLED = {"IMPLICIT_DOWNCAST", "AMBIG_IMPLICIT_DOWNCAST"}
+
+
 def canon(diags, with_lines=True, drop=ORDER_DEPENDENT):
     out = []
     for (code, f, line, msg, is_err) in diags:
-        if code in drop:
+        if code in drop or code in UNMODELLED:
             continue
-        out.append((code, msg if "\x01" not in msg else "<ambient>", line if (with_lines and code not in LINE_UNMODELLED) else None))
-    return sorted(out, key=lambda t: (t[0], t[1], -1 if t[2] is None else t[2]))
+        out.append((code, msg if "\x01" not in msg else "<ambient>", line if (with_lines and code not in LINE_UNMODELLED) else None, f))
+    return sorted(out, key=lambda t: (t[0], t[1], -1 if t[2] is None else t[2], t[3] or ""))
 
 
 def status_of(rc):
